@@ -76,7 +76,9 @@ impl DealerSocketOutgoingProcessor {
         }
       }
 
-      if let Some(zmtp_frames_for_logical_message) = current_message_to_send_option {
+      // Drain everything that is queued, not one message per wake-up: Notify stores at most
+      // one permit, so a burst of queued messages produces fewer wake-ups than messages.
+      while let Some(zmtp_frames_for_logical_message) = current_message_to_send_option.take() {
         tracing::trace!(
           "[DealerProc {}] Processing message from outgoing queue ({} parts).",
           self.core_handle,
@@ -84,7 +86,12 @@ impl DealerSocketOutgoingProcessor {
         );
 
         match self.outgoing_orchestrator.route_message(zmtp_frames_for_logical_message, false).await {
-          Ok(()) => {}
+          Ok(()) => {
+            let mut queue_guard = self.pending_queue.lock().await;
+            if self.outgoing_orchestrator.has_connections() {
+              current_message_to_send_option = queue_guard.pop_front();
+            }
+          }
           Err((returned, _)) => {
             tracing::debug!(
               "[DealerProc {}] route_message failed (all peers full or no peers). Re-queuing.",
@@ -94,11 +101,6 @@ impl DealerSocketOutgoingProcessor {
             self.queue_activity_notifier.notify_one();
           }
         }
-      } else {
-        tracing::trace!(
-          "[DealerProc {}] No message popped from queue (or conditions not met). Continuing to wait.",
-          self.core_handle
-        );
       }
     }
     tracing::debug!(
@@ -605,6 +607,14 @@ impl DealerSocket {
         core_s_read.options.sndhwm.max(1),
       )
     };
+
+    // Messages already waiting in the pending queue go first: a later send must not
+    // overtake them by being routed directly.
+    if !self.pending_outgoing_queue.lock().await.is_empty() {
+      return self
+        .queue_message_or_error(zmtp_wire_frames, global_sndhwm, global_sndtimeo)
+        .await;
+    }
 
     match self.outgoing_orchestrator.route_message(zmtp_wire_frames, false).await {
       Ok(()) => Ok(()),
